@@ -290,7 +290,7 @@ func (r *refRun) burst(h *RHist) {
 	case <-done:
 	case <-time.After(3 * time.Second):
 	}
-	for i := 0; i < 3000 && int(atomic.LoadInt32(&consumed)) < len(h.Docs); i++ {
+	for i := 0; i < 15000 && int(atomic.LoadInt32(&consumed)) < len(h.Docs); i++ {
 		time.Sleep(time.Millisecond)
 	}
 	nconsumed := int(atomic.LoadInt32(&consumed)) // before the reference loader below adds its own install
